@@ -17,7 +17,19 @@ RULE = ("chain runners: every chain script below runs under waterfall.Sche, the 
         "8 x 2000 thorough) on Handler / gated Handler / RunService / gated RunService; concurrent chains (1-6 chains, later completions from "
         "fresh goroutines); random scheduler scripts (1-40 ops, <=4 posters, 1/6 panicking closures, 1/5 with Stop) and random chain scripts "
         "(1-3 chains of <=5 tasks interleaved with plain closures, completions fired in generated orders incl. too early and twice); malformed "
-        "scripts. Non-trivial = at least one closure, task or final ran; distinct = distinct op lists.")
+        "scripts. TASK IDS (needs hooks/C15-hook-taskid.patch: VerifSetNextTaskId / VerifNextTaskId / VerifTaskId): the process-wide RunTask id counter is "
+        "reset to 1 at the start of every case and positioned by OSetId; for every scheduler script of length <= 3 (quick) / 4 (thorough) and every chain "
+        "(OChain / OChainB) of length <= 2 / 3, one run per Post of the script with the counter placed so that exactly THAT Post gets id 0 (the uint32 wrap); "
+        "the same for one poster x 4 closures on Sche.Handler / gated Handler / RunService / gated RunService, 8 posters x 50 and the 1199-burst with the wrap "
+        "among their Posts, concurrent chains, the registry race, half of the near-capacity scripts (a poster blocked on the full queue holds id 0), the counter "
+        "at 0, and an OSetId injected into a third of the random scripts; the harness reports the id of every task its consumer receives (SId; value shown, "
+        "not compared - tag id0-received counts the runs in which id 0 really was received) and checks the counter read-back (SBad 8). "
+        "SHARED TASK LISTS: OList defines ONE []waterfall.Task + one final + one prepared Builder (the result slices handed to callbacks are shared as well), "
+        "OShare starts a chain over it under waterfall.Sche / Builder.Do() / Simple / ExecAndWait; for every task list of length <= 2 (quick) / 3 (thorough) "
+        "over the 7 behaviours: three chains one after the other (Sche x3, Do() x3, and a rotating pair of different runners) and two chains overlapped "
+        "(Sche+Sche, Do()+Sche), all driven to completion; random scripts with 1-2 lists and 2-5 chains under random runners started at random moments; "
+        "concurrent: 1-4 schedulers with the real Handler x 1-6 chains each, all over one slice resp. one Builder per scheduler (OConcS), every chain must "
+        "be exactly spec(tasks). Non-trivial = at least one closure, task or final ran; distinct = distinct op lists.")
 TRUSTED_BASE = [
     "Coq 8.16.1 kernel + vm_compute (case evaluation, Examples); no native_compute",
     "hand translation utils/sche/sche.go (Post, doTask, Handler, Stop), sche_mgr.go (GetSche, DelSche), utils/waterfall/waterfall_sche.go (Chain, Sche; Builder = Sche), waterfall.go (Simple as a big-step evaluator with panics as values, ExecAndWait as a token machine over chanNext cap 1) -> C15/Model.v, measured by this correspondence run",
@@ -27,6 +39,8 @@ TRUSTED_BASE = [
     "modelled not verified: Go buffered channel (FIFO, send blocks when full, send on / close under a blocked sender panics, receive from a closed channel drains the buffer), select in Handler (may pick either ready case), recover",
     "MEASURED, not proved (partial): every closure / task / final ran on the consumer goroutine (goroutine id from runtime.Stack compared with the consumer's; RunService: with the first closure's and against all poster ids); real blocking of Post at 999 queued tasks; concurrent runs compared only through per-poster / per-chain projections",
     "chain scripts are tied to the chain machine by sharing run_item/take_pool and by this correspondence run, not by a refinement proof; scheduler scripts are proved to be runs of the transition system (C15_script_reachable)",
+    "hand translation RunTaskIdService.AllocId (atomic.AddUint32, no wrap handling) + Post (AllocId before the send) + DoTask (id not consulted) -> Model.v Part 1i; the verif-tagged hook utils/sche/verif_hooks.go (hooks/C15-hook-taskid.patch) positions / reads the real counter; id VALUES are displayed but not compared (the property does not speak about them)",
+    "hand translation 'Chain.tasks is the caller's slice, read at every tryExec, never written' -> Model.v Part 2s (cstep_mem returns the array as found); shared-list scripts attribute the events of shared functions to chains through a harness-side shadow of the queue (which chain each queued closure was posted for - chain scripts never block) and, in OConcS, through the consumer goroutine the event happened on",
 ]
 ASSUMPTIONS = [
     "waterfall.Simple / ExecAndWait are modelled WITH hooks/C15-fix-waterfall-empty.patch (empty task list -> final(false)); without it both panic (index out of range) and the corpus cases [OSimple 0 []] / [OWait 0 []] are reported",
@@ -36,9 +50,10 @@ ASSUMPTIONS = [
     "after Stop the consumer may leave with tasks still queued (Handler's select; RunService.Stop): those closures never run - 'exactly once' is claimed for schedulers that are not stopped, 'at most once' always",
     "a waterfall task that calls its callback twice is outside the property: the chain has no guard and final can run twice (C15_double_callback, C15_callbacks_conserved)",
     "selfBlockDefend = false (the shipped value)",
+    "the caller does not modify a task list while chains are running over it (the chain reads c.tasks[index] at every step); a chain over a shared list is otherwise held to exactly the standard of a chain over a list of its own (C15_chain_frame, C15_shared_chains)",
 ]
 TECHNIQUE = ("Coq proof (inductive invariant of an interleaving transition system for all poster counts / programs / schedules; refinement of the chain machine "
              "to a history function for all chains / completion orders) + differential correspondence and property monitor against the real sche.Sche, RunService and waterfall.Sche")
 LEVEL_TEXT = ("Machine-checked Coq theorems: exactly-once / global and per-poster FIFO / panic isolation / post-after-stop for the scheduler model with a 999-slot blocking queue, "
-              "unbounded in posters, programs and schedules; order / argument passing / first-error / final-once for the chain model, unbounded in length and completion order. "
+              "unbounded in posters, programs and schedules, for every value of the process-wide task id counter (ids wrap mod 2^32, id 0 included); order / argument passing / first-error / final-once for the chain model, unbounded in length and completion order. "
               "PARTIAL: 'on the consumer goroutine' and real blocking are measured on the running code each run, not proved.")
